@@ -1,38 +1,43 @@
-"""Apply a seeded defect to /repo, run the property's check, undo.  Usage: python -m harness.seedtest <seed dir> [tier]
-A seed dir holds patch.diff, demo.py, meta.json ({"property": "Cxx", ...})."""
+"""Run a property's check against a seeded defect.  Usage: python -m harness.seedtest <seed dir> [tier]
+A seed dir holds patch.diff, demo.py, meta.json ({"property": "Cxx", ...}).  The patch is applied in a scratch
+git worktree of /repo (removed afterwards), so /repo itself is never touched; the check reads it via VERIF_REPO."""
 import json
 import os
+import shutil
 import subprocess
 import sys
 import time
 
 
 def main():
-    d = sys.argv[1].rstrip("/")
+    d = os.path.abspath(sys.argv[1].rstrip("/"))
     tier = sys.argv[2] if len(sys.argv) > 2 else "quick"
     meta = json.load(open(os.path.join(d, "meta.json")))
     pid = meta["property"]
-    patch = os.path.abspath(os.path.join(d, "patch.diff"))
-    if subprocess.run(["git", "-C", "/repo", "status", "--porcelain", "--untracked-files=no"], capture_output=True, text=True).stdout.strip():
-        print("REPO DIRTY, refusing"); sys.exit(2)
-    r = subprocess.run(["git", "-C", "/repo", "apply", patch], capture_output=True, text=True)
-    if r.returncode != 0:
-        print("PATCH DOES NOT APPLY", r.stderr[:300]); sys.exit(2)
+    wt = "/tmp/seedtest-wt-%d" % os.getpid()
+    subprocess.run(["git", "-C", "/repo", "worktree", "add", "-q", "--detach", wt, "HEAD"], check=True)
     t0 = time.time()
     try:
+        shutil.copy("/repo/src/bluesky/_version.py", wt + "/src/bluesky/_version.py")
+        r = subprocess.run(["git", "-C", wt, "apply", os.path.join(d, "patch.diff")], capture_output=True, text=True)
+        if r.returncode != 0:
+            print("PATCH DOES NOT APPLY", os.path.basename(d), r.stderr[:200]); return
         demo = subprocess.run(["/venv/bin/python", os.path.join(d, "demo.py")], capture_output=True, text=True,
-                              env=dict(os.environ, PYTHONPATH="/repo/src"), timeout=300)
-        chk = subprocess.run(["./check", pid, "--tier", tier], cwd="/verif", capture_output=True, text=True, timeout=3000,
-                             env=dict(os.environ, VERIF_EVIDENCE_DIR="/tmp/verif-seed-evidence"))
+                              env=dict(os.environ, PYTHONPATH=wt + "/src"), timeout=600)
+        chk = subprocess.run(["./check", pid, "--tier", tier], cwd="/verif", capture_output=True, text=True, timeout=3400,
+                             env=dict(os.environ, VERIF_REPO=wt, VERIF_EVIDENCE_DIR="/tmp/verif-seed-evidence"))
     finally:
-        subprocess.run(["git", "-C", "/repo", "checkout", "--", "."], check=True)
+        subprocess.run(["git", "-C", "/repo", "worktree", "remove", "--force", wt])
     lines = [l for l in chk.stdout.splitlines() if l.startswith(("VIOLATION", "OK ", "KNOWN-FINDING"))]
     verdict = "CAUGHT" if chk.returncode == 1 and any(l.startswith("VIOLATION") for l in lines) else "MISSED"
-    nf = any("no-failing-input-found" in l for l in lines)
+    nf = all("no-failing-input-found" in l for l in lines if l.startswith("VIOLATION")) and verdict == "CAUGHT"
     print("%s %s %s demo_exit_patched=%d check_exit=%d%s wall=%.0fs" % (
         verdict, pid, os.path.basename(d), demo.returncode, chk.returncode, " (no-failing-input-found)" if nf else "", time.time() - t0))
     for l in lines[:3]:
-        print("   ", l[:200])
+        if l.startswith("VIOLATION"):
+            print("   ", l[:200])
+    if chk.returncode not in (0, 1) or (chk.returncode == 1 and not lines):
+        print("    check crashed:", (chk.stdout + chk.stderr)[-600:])
 
 
 if __name__ == "__main__":
